@@ -142,6 +142,165 @@ Example views_all_three cm :
   /\ map (fun kv => enc (fst kv)) (match language_views cm [2; 0; 1] with CM kvs => kvs | _ => [] end) = [[x01]; [x02]; [x41; x00]].
 Proof. split; reflexivity. Qed.
 
+(* ====================== Part A2: the order of the cost parameters ====================== *)
+(* sorting records by a key: with pairwise distinct keys the result is strictly ascending, and it is the same for
+   every arrangement of the input (dict order is irrelevant for a sorted() over the keys) *)
+Section KeySort.
+  Context {A K : Type} (key : A -> K) (kltb : K -> K -> bool).
+  Hypothesis kirrefl : forall x, kltb x x = false.
+  Hypothesis ktrans : forall x y z, kltb x y = true -> kltb y z = true -> kltb x z = true.
+  Hypothesis ktotal : forall x y, x <> y -> kltb x y = true \/ kltb y x = true.
+  Definition eltb (a b : A) : bool := kltb (key a) (key b).
+  Definition elt (a b : A) : Prop := eltb a b = true.
+
+  Lemma kinsert_sorted x l : ~ In (key x) (map key l) -> StronglySorted elt l -> StronglySorted elt (insert eltb x l).
+  Proof.
+    induction l as [|h r IH]; cbn; intros Hn S.
+    - constructor; constructor.
+    - inversion S as [|? ? Sr Fh]; subst.
+      destruct (eltb h x) eqn:E.
+      + constructor; [apply IH; auto|].
+        rewrite Forall_forall in *. intros y Hy.
+        apply (Permutation_in _ (insert_perm eltb x r)) in Hy. destruct Hy as [<-|Hy]; [exact E | now apply Fh].
+      + assert (T : eltb x h = true).
+        { unfold eltb in *. destruct (ktotal (key x) (key h)) as [T|T]; [intros Q; apply Hn; now left | exact T | congruence]. }
+        constructor; [exact S|]. constructor; [exact T|].
+        rewrite Forall_forall in *. intros y Hy. unfold elt, eltb in *. eapply ktrans; [exact T | now apply Fh].
+  Qed.
+  Lemma kisort_sorted l : NoDup (map key l) -> StronglySorted elt (isort eltb l).
+  Proof.
+    induction l as [|x l IH]; cbn; intros H; [constructor|].
+    inversion H as [|? ? Hn Hr]; subst. apply kinsert_sorted; [|now apply IH].
+    intros X. apply Hn. eapply Permutation_in; [apply Permutation_map, (isort_perm eltb) | exact X].
+  Qed.
+  Lemma ksorted_perm_eq l1 : forall l2, StronglySorted elt l1 -> StronglySorted elt l2 -> Permutation l1 l2 -> l1 = l2.
+  Proof.
+    induction l1 as [|a r1 IH]; intros l2 S1 S2 P.
+    - apply Permutation_nil in P. now subst.
+    - destruct l2 as [|b r2]; [apply Permutation_sym, Permutation_nil in P; discriminate|].
+      inversion S1 as [|? ? Sr1 F1]; inversion S2 as [|? ? Sr2 F2]; subst. rewrite Forall_forall in F1, F2.
+      assert (E : a = b).
+      { assert (Ia : In a (b :: r2)) by (eapply Permutation_in; [exact P | now left]).
+        assert (Ib : In b (a :: r1)) by (eapply Permutation_in; [symmetry; exact P | now left]).
+        destruct Ia as [Ia|Ia]; [now subst|]. destruct Ib as [Ib|Ib]; [now subst|].
+        pose proof (F2 _ Ia) as L1. pose proof (F1 _ Ib) as L2. unfold elt, eltb in *.
+        pose proof (ktrans _ _ _ L1 L2) as L. now rewrite kirrefl in L. }
+      subst b. f_equal. apply IH; auto. eapply Permutation_cons_inv; exact P.
+  Qed.
+  Lemma kisort_perm_eq l l' : NoDup (map key l) -> Permutation l l' -> isort eltb l = isort eltb l'.
+  Proof.
+    intros N P. apply ksorted_perm_eq.
+    - now apply kisort_sorted.
+    - apply kisort_sorted. eapply Permutation_NoDup; [apply Permutation_map; exact P | exact N].
+    - rewrite !(isort_perm eltb). exact P.
+  Qed.
+  Lemma kisort_id l : StronglySorted elt l -> isort eltb l = l.
+  Proof.
+    apply (isort_sorted_id eltb).
+    - intros x. apply kirrefl.
+    - intros x y z. apply ktrans.
+  Qed.
+End KeySort.
+
+(* Python's str order (code points) is a strict total order *)
+Lemma N_of_ascii_inj x y : N_of_ascii x = N_of_ascii y -> x = y.
+Proof. intros E. rewrite <- (ascii_N_embedding x), <- (ascii_N_embedding y). now rewrite E. Qed.
+Lemma str_irrefl a : str_ltb a a = false.
+Proof. induction a as [|x a IH]; cbn; [reflexivity|]. now rewrite N.ltb_irrefl. Qed.
+Lemma str_trans a : forall b c, str_ltb a b = true -> str_ltb b c = true -> str_ltb a c = true.
+Proof.
+  induction a as [|x a IH]; intros [|y b] [|z c]; cbn; try discriminate; try reflexivity.
+  destruct (N_of_ascii x <? N_of_ascii y) eqn:E1, (N_of_ascii y <? N_of_ascii x) eqn:E1',
+           (N_of_ascii y <? N_of_ascii z) eqn:E2, (N_of_ascii z <? N_of_ascii y) eqn:E2',
+           (N_of_ascii x <? N_of_ascii z) eqn:E3, (N_of_ascii z <? N_of_ascii x) eqn:E3';
+    try rewrite N.ltb_lt in *; try rewrite N.ltb_ge in *; try discriminate; try reflexivity; try lia.
+  apply IH.
+Qed.
+Lemma str_total a : forall b, a <> b -> str_ltb a b = true \/ str_ltb b a = true.
+Proof.
+  induction a as [|x a IH]; intros [|y b] Hn; cbn; auto; try congruence.
+  destruct (N_of_ascii x <? N_of_ascii y) eqn:E1; [now left|].
+  destruct (N_of_ascii y <? N_of_ascii x) eqn:E2; [now right|].
+  apply N.ltb_ge in E1, E2. assert (x = y) by (apply N_of_ascii_inj; lia). subst y.
+  apply IH. intros ->. now apply Hn.
+Qed.
+Lemma zlt_irrefl x : (x <? x)%Z = false.
+Proof. apply Z.ltb_irrefl. Qed.
+Lemma zlt_trans x y z : (x <? y)%Z = true -> (y <? z)%Z = true -> (x <? z)%Z = true.
+Proof. rewrite !Z.ltb_lt. lia. Qed.
+Lemma zlt_total x y : x <> y -> (x <? y)%Z = true \/ (y <? x)%Z = true.
+Proof. rewrite !Z.ltb_lt. lia. Qed.
+
+(* the keys of a language's parameter dict, made comparable across the two shapes only for NoDup statements *)
+Definition keys_distinct (p : params) : Prop :=
+  match p with ByName l => NoDup (map fst l) | ByPos l => NoDup (map fst l) end.
+Definition same_dict (p p' : params) : Prop :=
+  match p, p' with
+  | ByName l, ByName l' => Permutation l l'
+  | ByPos l, ByPos l' => Permutation l l'
+  | _, _ => False
+  end.
+
+(* (a) sorted(cost_model.keys()) makes the PlutusV1 parameter list independent of the dict order *)
+Theorem vals_by_key_dict_order p p' : keys_distinct p -> same_dict p p' -> vals_by_key p = vals_by_key p'.
+Proof.
+  destruct p as [l|l], p' as [l'|l']; cbn; intros N P; try contradiction; f_equal.
+  - exact (kisort_perm_eq fst str_ltb str_irrefl str_trans str_total l l' N P).
+  - exact (kisort_perm_eq fst Z.ltb zlt_irrefl zlt_trans zlt_total l l' N P).
+Qed.
+
+(* (b) it lists the values in strictly ascending order of the keys: positions numerically, names by code points *)
+Theorem vals_by_key_pos l : NoDup (map fst l) ->
+  let s := isort pos_ltb l in
+  vals_by_key (ByPos l) = map snd s /\ Permutation s l /\ StronglySorted (fun a b => fst a < fst b)%Z s.
+Proof.
+  intros N s. split; [reflexivity|]. split; [apply (isort_perm pos_ltb)|].
+  pose proof (kisort_sorted fst Z.ltb zlt_trans zlt_total l N) as S.
+  eapply StronglySorted_ind with (P := fun s => StronglySorted (fun a b => (fst a < fst b)%Z) s) in S;
+    [exact S | constructor |].
+  intros a r _ IH F. constructor; [exact IH|]. rewrite Forall_forall in *. intros y Hy.
+  specialize (F y Hy). unfold elt, eltb in F. now apply Z.ltb_lt.
+Qed.
+Theorem vals_by_key_name l : NoDup (map fst l) ->
+  let s := isort name_ltb l in
+  vals_by_key (ByName l) = map snd s /\ Permutation s l /\ StronglySorted (fun a b => str_ltb (fst a) (fst b) = true) s.
+Proof.
+  intros N s. split; [reflexivity|]. split; [apply (isort_perm name_ltb)|].
+  exact (kisort_sorted fst str_ltb str_trans str_total l N).
+Qed.
+
+(* (c) a cost model reported as a list (cardano-cli: {i: v for i, v in enumerate(vs)}) enters the PlutusV1 view in
+   list order, whatever its length (positions 10, 11, ... come after 2, ..., 9) *)
+Lemma enumerate_from_sorted vs : forall k,
+  StronglySorted (elt fst Z.ltb) (enumerate_from k vs) /\ Forall (fun e => (k <= fst e)%Z) (enumerate_from k vs).
+Proof.
+  induction vs as [|v r IH]; intros k; cbn; [split; constructor|].
+  destruct (IH (k + 1)%Z) as [S F]. split.
+  - constructor; [exact S|]. rewrite Forall_forall in *. intros y Hy. specialize (F y Hy).
+    unfold elt, eltb. cbn. apply Z.ltb_lt. lia.
+  - constructor; [cbn; lia|]. rewrite Forall_forall in *. intros y Hy. specialize (F y Hy). lia.
+Qed.
+Lemma enumerate_from_vals vs : forall k, map snd (enumerate_from k vs) = vs.
+Proof. induction vs as [|v r IH]; intros k; cbn; [reflexivity|]. now rewrite IH. Qed.
+Theorem vals_by_key_enumerate vs : vals_by_key (ByPos (enumerate vs)) = vs.
+Proof.
+  cbn. change pos_ltb with (eltb (@fst Z Z) Z.ltb).
+  rewrite (kisort_id fst Z.ltb zlt_irrefl zlt_trans); [apply enumerate_from_vals|].
+  apply enumerate_from_sorted.
+Qed.
+Corollary view_v1_positional cm vs : cm_get cm 1 = ByPos (enumerate vs) ->
+  view cm 0 = (CB [x00], CB (enc (CAi (map cint vs)))).
+Proof. intros E. unfold view. cbn. now rewrite E, vals_by_key_enumerate. Qed.
+
+(* twelve positional parameters handed over in scrambled dict order: 10 and 11 stay behind 2..9 (a sort of the keys
+   as text would put them between 1 and 2); names are ordered by code points (upper case first) *)
+Example positional_twelve :
+  vals_by_key (ByPos [(10, 110); (2, 102); (0, 100); (11, 111); (1, 101); (3, 103); (9, 109); (4, 104); (8, 108); (5, 105);
+                      (7, 107); (6, 106)]%Z)
+  = [100; 101; 102; 103; 104; 105; 106; 107; 108; 109; 110; 111]%Z
+  /\ vals_by_key (ByName [("b", 1); ("Zeta", 2); ("a", 3); ("10", 4); ("2", 5)]%Z%string) = [4; 5; 2; 3; 1]%Z.
+Proof. split; reflexivity. Qed.
+
 (* ====================== Part B: invariants ====================== *)
 Definition opscripts (op : bop) : list script := match op_script op with Some s => [s] | None => [] end.
 Definition lg (s : script) : list N := match lang_id (s_lang s) with Some l => [l] | None => [] end.
@@ -624,7 +783,8 @@ Module Ex12.
     [AddScriptInput uA (SrcScript sA) (Some dA) (Some (rd 1)); AddMintingScript (SrcScript sB) (Some (rd 2))].
   Definition args12 : bargs :=
     mkArgs [b28 xb2] [] 0 [bank] [(1, (10, 20)); (2, (11, 21))] true 2000%Z None None None None.
-  Definition cm12 : costmodels := [(1, [("b"%string, 7%Z); ("a"%string, 5%Z)]); (2, [("z"%string, 1%Z); ("y"%string, 2%Z)])].
+  Definition cm12 : costmodels :=
+    [(1, ByName [("b"%string, 7%Z); ("a"%string, 5%Z)]); (2, ByName [("z"%string, 1%Z); ("y"%string, 2%Z)])].
   (* datums only: an extra datum and a native script, no redeemer *)
   Definition opsD : list bop := [AddInput k1; AddOutputDatum dA].
 End Ex12.
